@@ -86,6 +86,49 @@ Theorem C20_drop_balance : forall capacity w cprog nstop pprog sched,
                pushed (shd s) = map snd (taken (shd s)) ++ d.
 Proof. exact spsc_drop_balance. Qed.
 
+(* ---- close, end-of-stream, wake-ups (recv() as fixed by 1e3221d / 72fa4b8) *)
+(* end-of-stream is answered only after stop(), or after the last source handle is gone and
+   everything that entered the ring has left it, in order (delivered, or discarded as oldest) *)
+Theorem C20_eos_only_when_closed_and_drained : forall capacity w cprog nstop pprog sched,
+  cfg_ok capacity w cprog pprog ->
+  let s := run (init capacity w cprog nstop [pprog]) sched in
+  In REos (c_rets (cons s)) ->
+  stopped (shd s) = true \/
+  (closed (shd s) = true /\ head (shd s) = tail (shd s) /\ map snd (taken (shd s)) = pushed (shd s)).
+Proof. exact spsc_eos_sound. Qed.
+
+Theorem C20_closed_is_final : forall capacity w cprog nstop pprog sched,
+  cfg_ok capacity w cprog pprog ->
+  let s := run (init capacity w cprog nstop [pprog]) sched in
+  closed (shd s) = true -> exists p, prods s = [p] /\ p_handles p = 0 /\ p_quiet p = true.
+Proof. exact spsc_closed_is_final. Qed.
+
+(* a registered, not yet woken consumer always has the notify_waiters() of a close / stop ahead *)
+Theorem C20_no_lost_wakeup : forall capacity w cprog nstop pprog sched,
+  cfg_ok capacity w cprog pprog ->
+  let s := run (init capacity w cprog nstop [pprog]) sched in
+  c_pc (cons s) = CRvWaiting -> woken (shd s) = false ->
+  (closed (shd s) = true -> exists p, prods s = [p] /\ p_pc p = PDropNotify) /\
+  (stopped (shd s) = true -> s_pc (stp s) = SNotify).
+Proof. exact spsc_no_lost_wakeup. Qed.
+
+Theorem C20_consumer_enabled_after_close : forall capacity w cprog nstop pprog sched,
+  cfg_ok capacity w cprog pprog ->
+  let s := run (init capacity w cprog nstop [pprog]) sched in
+  forall p, closed (shd s) = true -> prods s = [p] -> p_pc p = PIdle ->
+  (c_pc (cons s) <> CIdle \/ c_prog (cons s) <> []) -> step s 0 <> None.
+Proof. exact spsc_consumer_enabled_after_close. Qed.
+
+(* after close (producer thread done) a running consumer finishes its recv()/pop() within 20 of
+   its own steps: drains what remains (C20_received_subsequence_of_sent gives the order), then
+   end-of-stream (C20_eos_only_when_closed_and_drained says only then) *)
+Theorem C20_recv_terminates_after_close : forall capacity w cprog nstop pprog sched p,
+  cfg_ok capacity w cprog pprog ->
+  let s := run (init capacity w cprog nstop [pprog]) sched in
+  closed (shd s) = true -> prods s = [p] -> p_pc p = PIdle ->
+  exists k, (k <= 20)%nat /\ c_pc (cons (run s (repeat 0%nat k))) = CIdle.
+Proof. exact spsc_recv_terminates_after_close_20. Qed.
+
 (* ---- listed finding F22 (class multi_producer_shared_source): two producer threads *)
 Theorem C20_mpsc_refuted :
   exists (progs : list (list pop_)) sched,
